@@ -192,7 +192,8 @@ def refresh_changing_deps(root, spec, r):
 def mk_case(spec, pool, behav=None, sched=None, runs=1, missing=(), absent_outputs=False, label='', touch_inputs=False):
     n = spec['n']
     behav = behav or [{} for _ in range(n)]
-    behav = [{'rc': b.get('rc', 0), 'sleep_ms': b.get('sleep_ms', 0), 'out': b.get('out', 0), 'err': b.get('err', 0)} for b in behav]
+    behav = [dict({'rc': b.get('rc', 0), 'sleep_ms': b.get('sleep_ms', 0), 'out': b.get('out', 0), 'err': b.get('err', 0)},
+                  **({'signal': b['signal'], 'sigtouch': bool(b.get('sigtouch'))} if b.get('signal') else {})) for b in behav]
     return {'spec': spec, 'pool': pool, 'behav': behav, 'sched': sched, 'runs': runs, 'missing': sorted(missing),
             'absent_outputs': bool(absent_outputs), 'label': label, 'touch_inputs': bool(touch_inputs)}
 
@@ -239,7 +240,8 @@ def build_template(ctx, spec, absent_outputs=False):
         if rc != 0:
             raise RuntimeError(f'xvc pipeline {" ".join(args)} failed rc={rc}: {err[-500:]}')
     for i in range(n):
-        args = ['step', 'new', '-s', f's{i}', '-c', f'{ctx.step_bin} s{i}']
+        # `$$`: pid of the shell xvc runs the command with; used by the outcome class "terminated by a signal"
+        args = ['step', 'new', '-s', f's{i}', '-c', f'{ctx.step_bin} s{i} $$']
         if spec['whens'][i] != 'by_dependencies':
             args += ['--when', spec['whens'][i]]
         x(*args)
@@ -391,6 +393,8 @@ def run_case(ctx, case, hook=False, timeout=20, keep=False):
     for i in range(spec['n']):
         b = case['behav'][i]
         lines = [f'sleep_ms {b["sleep_ms"]}', f'rc {b["rc"]}', f'out {b["out"]}', f'err {b["err"]}']
+        if b.get('signal'):
+            lines += [f'signal {b["signal"]}', f'sigtouch {1 if b.get("sigtouch") else 0}']
         if i in need_out:
             lines.append(f'touch {out_path(i)}')
         open(os.path.join(root, '.ctl', f's{i}'), 'w').write('\n'.join(lines) + '\n')
@@ -488,6 +492,18 @@ def oracle(case, o, first_run=True):
                 st = final.get(f's{i}')
                 if st is None or st.split('(')[0] not in ('DoneByRunning', 'DoneWithoutRunning', 'Broken'):
                     fail('C11', 'verdict', f'step s{i} ended without a verdict: last published state {st} (hook trace)', final=final)
+    # ---- C10: only a command that exited with status 0 counts as finished successfully
+    if not o['timed_out']:
+        final = trace_final_states(o['trace']) if (o.get('hook') and o.get('trace')) else {}
+        for s in range(n):
+            bad = [e for e in ends.get(s, []) if e['rc'] not in (0, None)]
+            if not bad:
+                continue
+            how = (f'was terminated by signal {bad[0]["rc"] - 128}' if case['behav'][s].get('signal') else f'exited with status {bad[0]["rc"]}')
+            if re.search(r'^\[DONE\] \[s%d\]' % s, o['stdout'], re.M):
+                fail('C10', 'status', f'step s{s} is reported [DONE] although its command {how}', stdout_tail=o['stdout'][-300:])
+            elif final.get(f's{s}', '').startswith('DoneByRunning'):
+                fail('C10', 'status', f'step s{s} is published as DoneByRunning although its command {how} (hook trace)', final=final)
     # ---- C10: order and success of dependencies
     failed = set()
     for s in range(n):
@@ -643,6 +659,8 @@ def signature(case, f):
             sig['kind'] = 'hang'
     elif f['clause'] == 'pool':
         sig['kind'] = 'pool-exceeded-after-unspawnable-command' if spec.get('unspawnable') else 'pool-exceeded'
+    elif f['clause'] in ('status', 'downstream') and any(b.get('signal') for b in case['behav']):
+        sig['kind'] = 'command-terminated-by-signal-counts-as-done'
     elif f['clause'] in ('order', 'downstream'):
         sig['kind'] = 'glob-dependency-on-absent-output' if case.get('absent_outputs') and any(k in ('glob', 'globi') for (_, _, k) in spec['edges']) else 'order'
     elif f['clause'] == 'cycle':
@@ -656,7 +674,7 @@ def _mixed_deps(case):
     """some waiting step has a dependency that ends broken and one that ends done (predicted from the case alone)"""
     spec = case['spec']
     deps, whens = spec_deps(spec), spec['whens']
-    broken = {s for s in range(spec['n']) if whens[s] != 'never' and (case['behav'][s]['rc'] != 0 or s in case.get('missing', [])
+    broken = {s for s in range(spec['n']) if whens[s] != 'never' and (case['behav'][s]['rc'] != 0 or case['behav'][s].get('signal') or s in case.get('missing', [])
                                                                       or s in spec.get('unspawnable', []))}
     changed = True
     while changed:
@@ -809,6 +827,13 @@ def run_family(ctx, stream, cases, own, hook=False, timeout=20, workers=8, valid
             chk.count(f'edge:{k}')
         for w in case['spec']['whens']:
             chk.count(f'when:{w}')
+        for b in case['behav']:
+            chk.count('outcome:' + (f'signal-{b["signal"]}' + ('-after-writing-output' if b.get('sigtouch') else '') if b.get('signal')
+                                    else ('exit-nonzero' if b['rc'] else 'exit-0')))
+        for key in ('unspawnable', 'generic', 'textdeps', 'missing'):
+            k = len(case['spec'].get(key, [])) if key != 'missing' else len(case.get('missing', []))
+            if k:
+                chk.count(f'outcome:{key}', k)
         if error:
             chk.disagreement(stream, case, error, '', 'the pipeline could not be built or run (infrastructure)')
             continue
@@ -898,7 +923,8 @@ def describe(case):
     L = ['git init && xvc init']
     for i in range(spec['n']):
         b = case['behav'][i]
-        L.append(f'xvc pipeline step new -s s{i} -c "<journal start; sleep {b["sleep_ms"]}ms; stdout {b["out"]}B stderr {b["err"]}B; exit {b["rc"]}>"'
+        fin = (f'{"write the output file; " if b.get("sigtouch") else ""}kill -{b["signal"]} $$' if b.get('signal') else f'exit {b["rc"]}')
+        L.append(f'xvc pipeline step new -s s{i} -c "<journal start; sleep {b["sleep_ms"]}ms; stdout {b["out"]}B stderr {b["err"]}B; {fin}>"'
                  + (f' --when {spec["whens"][i]}' if spec['whens'][i] != 'by_dependencies' else ''))
     for (a, j, k) in spec['edges']:
         if k == 'step':
